@@ -529,5 +529,7 @@ fn main() {
         let rt = checks::rt(true);
         rt.block_on(receive_path(&mon, &mut rng, rounds / 2 + 1));
     });
+    // supplementary sanitizer lane (thorough): the same decoder workload under AddressSanitizer
+    checks::lanes::run(&mon, "asan", "c05", "60");
     mon.finish();
 }
